@@ -239,46 +239,24 @@ theorem mergeResult_logOk {self other : Mol} (ho : other.Wf) (hsl : self.LogOk) 
     simp only
     omega
 
-/-! ### a molecule merged into itself, in closed form -/
+/-! ### a molecule merged into itself = merged with its snapshot -/
 
-theorem selfMerge_two {m : Mol} (h : m.Inv) (first second : Int × Attrs) (rest : List (Int × Attrs))
-    (hn : m.nodes = first :: second :: rest) :
-    m.selfMerge =
-      ({ m with nodes := m.nodes ++ [(m.offset + 1, first.2.shift m.shiftBy.1 m.shiftBy.2)], maxNode := none },
-       .runtimeerror) := by
-  have hfresh : m.offset + 1 ∉ m.nodes.map Prod.fst := fun hx => by
-    have := offset_ge (self := m) _ hx; omega
-  unfold Mol.selfMerge
-  rw [hn]
-  dsimp only
-  rw [← hn, mergeOffs_eq h.2]
-  dsimp only
-  rw [upsert_fresh _ _ _ hfresh]
+theorem copy_keys {m : Mol} (h : m.Inv) : m.copy.keys = m.keys := by
+  have hall : m.keys.all m.hasNode = true := by
+    rw [List.all_eq_true]; intro k hk; exact (mem_keys_iff m k).mpr hk
+  cases hs : m.subgraph m.keys with
+  | none => unfold Mol.subgraph at hs; rw [if_pos hall] at hs; cases hs
+  | some s =>
+    have hk := subgraph_keys m m.keys s hs
+    rw [dedupKeys_of_nodup _ h.1.1] at hk
+    unfold Mol.copy; rw [hs]; exact hk
 
-theorem selfMerge_one_inters {m : Mol} (h : m.Inv) (first : Int × Attrs) (ty : String) (i : Inter)
-    (rest : List (String × Inter)) (hn : m.nodes = [first]) (hi : m.inters = (ty, i) :: rest) :
-    m.selfMerge =
-      ({ m with nodes := m.nodes ++ [(m.offset + 1, first.2.shift m.shiftBy.1 m.shiftBy.2)],
-                inters := m.inters ++ (m.inters.filter (fun ti => ti.1 == ty)).map
-                  (fun ti => (ti.1, { ti.2 with atoms := ti.2.atoms.map (fun _ => m.offset + 1) })),
-                maxNode := some (m.offset + 1) }, .keyerror) := by
-  have hfresh : m.offset + 1 ∉ m.nodes.map Prod.fst := fun hx => by
-    have := offset_ge (self := m) _ hx; omega
-  unfold Mol.selfMerge
-  rw [hn]
-  dsimp only
-  rw [hi]
-  dsimp only
-  rw [← hn, ← hi, mergeOffs_eq h.2]
-  dsimp only
-  rw [upsert_fresh _ _ _ hfresh]
+theorem copy_logs (m : Mol) : m.copy.logs = m.logs := rfl
 
-theorem selfMerge_normal {m : Mol} (h : m.nodes = [] ∨ (∃ first, m.nodes = [first]) ∧ m.inters = []) :
-    m.selfMerge = m.merge m := by
-  unfold Mol.selfMerge
-  rcases h with h | ⟨⟨first, h⟩, hi⟩
-  · rw [h]
-  · rw [h]; dsimp only; rw [hi]
+theorem copy_logOk {m : Mol} (h : m.Inv) (hl : m.LogOk) : m.copy.LogOk := by
+  unfold Mol.LogOk
+  rw [copy_logs, copy_keys h]
+  exact hl
 
 /-! ### building a block: names stay distinct -/
 
@@ -392,7 +370,7 @@ theorem mergeFoldS_ea {acc : Mol} (rest : List (Option Mol)) (hacc : acc.InvE)
   | cons o t ih =>
     have hstep : (mergeS acc o).1.InvE := by
       cases o with
-      | none => exact ⟨selfMerge_inv hacc.1, selfMerge_ea hacc.1 hacc.2⟩
+      | none => exact merge_inve hacc ⟨copy_inv hacc.1, copy_ea hacc.2⟩
       | some x => exact merge_inve hacc (hrest x List.mem_cons_self)
     unfold mergeFoldS
     cases hm : mergeS acc o with
@@ -502,5 +480,67 @@ theorem sstep_ea {st : State} (h : PoolInvE st.pool) (op : SOp)
                   · obtain ⟨x, hx, rfl⟩ := List.mem_map.mp ho
                     exact h _ (hsub x (List.mem_cons_of_mem _ hx))
             · exact he
+
+/-! ### the fold with repeated members -/
+
+theorem merge_logOk {self other : Mol} (hs : self.Inv) (ho : other.Inv) (hsl : self.LogOk) (hol : other.LogOk) :
+    (self.merge other).1.LogOk := by
+  by_cases hf : self.ff = other.ff
+  · by_cases hn : mergeNrexcl self other = other.nrexcl
+    · rw [merge_eq hs ho hf hn]; exact mergeResult_logOk ho.1 hsl hol _ _ _ _
+    · rw [merge_err (Or.inr hn)]; exact hsl
+  · rw [merge_err (Or.inl hf)]; exact hsl
+
+theorem mergeNrexcl_copy {m : Mol} (h : m.Inv) (he : m.EaOk) : mergeNrexcl m m.copy = m.copy.nrexcl := by
+  rw [copy_eq h he]
+  unfold mergeNrexcl
+  split <;> rfl
+
+/-- merging a molecule with its own snapshot succeeds whenever its log entries are intact -/
+theorem selfMerge_ok {m : Mol} (h : m.InvE) (hl : m.LogOk) : (m.merge m.copy).2 = .ok := by
+  have hf : m.ff = m.copy.ff := by rw [copy_eq h.1 h.2]
+  rw [merge_eq h.1 (copy_inv h.1) hf (mergeNrexcl_copy h.1 h.2), mergeOut_ok (copy_logOk h.1 hl)]
+
+/-- what an operand of the fold stands for: itself, or a snapshot of the accumulator -/
+def operandOf (acc : Mol) (o : Option Mol) : Mol := o.getD acc.copy
+
+theorem mergeS_eq (acc : Mol) (o : Option Mol) : mergeS acc o = acc.merge (operandOf acc o) := by
+  cases o <;> rfl
+
+theorem mergeFoldS_good {acc : Mol} (rest : List (Option Mol)) (hacc : acc.InvE) (hal : acc.LogOk)
+    (hrest : ∀ o, some o ∈ rest → o.InvE ∧ o.LogOk) :
+    (mergeFoldS acc rest).1.InvE ∧ (mergeFoldS acc rest).1.LogOk ∧
+    ((mergeFoldS acc rest).2 = .ok ∨ (mergeFoldS acc rest).2 = .valueerror) := by
+  induction rest generalizing acc with
+  | nil => exact ⟨hacc, hal, Or.inl rfl⟩
+  | cons o t ih =>
+    have hop : (operandOf acc o).InvE ∧ (operandOf acc o).LogOk := by
+      cases o with
+      | none => exact ⟨⟨copy_inv hacc.1, copy_ea hacc.2⟩, copy_logOk hacc.1 hal⟩
+      | some x => exact hrest x List.mem_cons_self
+    have h1 : (mergeS acc o).1.InvE := by rw [mergeS_eq]; exact merge_inve hacc hop.1
+    have h2 : (mergeS acc o).1.LogOk := by rw [mergeS_eq]; exact merge_logOk hacc.1 hop.1.1 hal hop.2
+    have h3 : (mergeS acc o).2 = .ok ∨ (mergeS acc o).2 = .valueerror := by
+      rw [mergeS_eq]; exact merge_outcome' hacc.1 hop.1.1 hop.2
+    unfold mergeFoldS
+    cases hm : mergeS acc o with
+    | mk a e =>
+      rw [hm] at h1 h2 h3
+      rcases h3 with h3 | h3
+      · simp only at h3; subst h3
+        exact ih h1 h2 (fun x hx => hrest x (List.mem_cons_of_mem _ hx))
+      · simp only at h3; subst h3
+        exact ⟨h1, h2, Or.inr rfl⟩
+
+/-- with members that agree on force field and nrexcl the fold runs to the end -/
+theorem mergeFoldS_cons_ok (acc : Mol) (o : Option Mol) (t : List (Option Mol)) (h : (mergeS acc o).2 = .ok) :
+    mergeFoldS acc (o :: t) = mergeFoldS (acc.merge (operandOf acc o)).1 t := by
+  rw [← mergeS_eq]
+  cases hm : mergeS acc o with
+  | mk a e =>
+    rw [hm] at h
+    simp only at h
+    subst h
+    simp only [mergeFoldS, hm]
 
 end C12
